@@ -118,3 +118,84 @@ Theorem mtag_meets_oracle_full_c mt a m i : 0 <= i ->
   | Unconstrained => True
   end.
 Proof. intros Hi. apply mtag_meets_oracle_gen; [exact HC|apply repaired_flags|left; reflexivity|exact Hi]. Qed.
+
+(* ---- non-vacuity: concrete requests that satisfy the hypotheses, with data returned and with a refusal ---- *)
+
+(** 10 x 3 array: sampled axis (interval 0.25, unit ms) x range axis (ticks 1, 2.5, 4); tag at (0.5 ms, 2.5) with
+    extent (1.0, 0): samples 2..6 of the first dimension, the tick 2.5 of the second *)
+Definition ex_array : darray :=
+  mkArray [10; 3] [DSampled (ofME 1 (-2)) None (Some "ms"%string); DRange [ofZ 1; ofME 5 (-1); ofZ 4] None].
+Definition ex_tag : tag := mkTag [ofME 1 (-1); ofME 5 (-1)] [ofZ 1; ofZ 0] ["ms"%string; "none"%string] [ex_array] [].
+
+Lemma ex_tag_ok : tag_ok ex_tag ex_array.
+Proof.
+  constructor.
+  - vm_compute. reflexivity.
+  - right. reflexivity.
+  - vm_compute. discriminate.
+  - vm_compute. reflexivity.
+  - apply all_spec_wants. vm_compute. reflexivity.
+  - intros d [<-|[<-|[]]]; cbn; [|exact I]. vm_compute. discriminate.
+Qed.
+
+Example tagged_exact_nonvacuous :
+  tag_ok ex_tag ex_array /\ not_pinned ex_tag ex_array RangeMatch_Exclusive /\
+  taggedData_tag repaired_except_pinned ex_tag ex_array RangeMatch_Exclusive = Ok ([2; 1], [4; 1]) /\
+  region_is (tag_incl ex_tag RangeMatch_Exclusive) (a_dims ex_array) (a_shape ex_array) (tag_wants ex_tag ex_array) [2; 1] [4; 1].
+Proof.
+  assert (E : taggedData_tag repaired_except_pinned ex_tag ex_array RangeMatch_Exclusive = Ok ([2; 1], [4; 1]))
+    by (vm_compute; reflexivity).
+  assert (P : not_pinned ex_tag ex_array RangeMatch_Exclusive) by (right; vm_compute; discriminate).
+  split; [exact ex_tag_ok|]. split; [exact P|]. split; [exact E|].
+  apply (tagged_exact_partial_c ex_tag ex_array RangeMatch_Exclusive [2; 1] [4; 1] ex_tag_ok P). exact E.
+Qed.
+
+(** the same tag moved beyond the last sample: refused *)
+Definition ex_tag_far : tag := mkTag [ofZ 9; ofME 5 (-1)] [ofZ 1; ofZ 0] [] [ex_array] [].
+Lemma ex_tag_far_ok : tag_ok ex_tag_far ex_array.
+Proof.
+  constructor.
+  - vm_compute. reflexivity.
+  - right. reflexivity.
+  - vm_compute. discriminate.
+  - vm_compute. reflexivity.
+  - apply all_spec_wants. vm_compute. reflexivity.
+  - intros d [<-|[<-|[]]]; cbn; [|exact I]. vm_compute. discriminate.
+Qed.
+
+Example tagged_oob_nonvacuous :
+  tag_ok ex_tag_far ex_array /\
+  taggedData_tag repaired_except_pinned ex_tag_far ex_array RangeMatch_Inclusive = Err E_OutOfBounds /\
+  forall off cnt, ~ region_is (tag_incl ex_tag_far RangeMatch_Inclusive) (a_dims ex_array) (a_shape ex_array)
+                                (tag_wants ex_tag_far ex_array) off cnt.
+Proof.
+  split; [exact ex_tag_far_ok|]. split; [vm_compute; reflexivity|].
+  intros off cnt R.
+  apply (tagged_exact_partial_c ex_tag_far ex_array RangeMatch_Inclusive off cnt ex_tag_far_ok (or_introl eq_refl)) in R.
+  vm_compute in R. discriminate.
+Qed.
+
+(** a multi-tag with three positions (rows of a 3 x 2 array) and extents on the same array *)
+Definition ex_mtag : mtag :=
+  mkMTag (mkNd [3; 2] [ofME 1 (-1); ofME 5 (-1);  ofZ 1; ofZ 1;  ofZ 2; ofZ 4])
+         (Some (mkNd [3; 2] [ofZ 1; ofZ 0;  ofME 1 (-1); ofZ 3;  ofZ 0; ofZ 0])) [] [ex_array] [].
+
+Lemma ex_mtag_ok : mtag_ok ex_mtag ex_array /\ forall i, In i [0; 1; 2] -> mtag_index_ok ex_mtag ex_array i.
+Proof.
+  split.
+  - constructor; vm_compute; try reflexivity. discriminate.
+  - intros i [<-|[<-|[<-|[]]]]; (split; [lia|]); intros _; (split; [vm_compute; reflexivity|apply all_spec_wants; vm_compute; reflexivity]).
+Qed.
+
+Example mtag_list_nonvacuous :
+  mtag_ok ex_mtag ex_array /\ mtag_not_pinned ex_mtag ex_array RangeMatch_Exclusive /\
+  taggedData_mtag repaired_except_pinned ex_mtag [0; 1; 2] ex_array RangeMatch_Exclusive
+  = Ok [([2; 1], [4; 1]); ([4; 0], [2; 2]); ([8; 2], [1; 1])] /\
+  mtag_region (incl_of RangeMatch_Exclusive) ex_mtag ex_array 1 [4; 0] [2; 2].
+Proof.
+  destruct ex_mtag_ok as [H1 H2].
+  assert (P : mtag_not_pinned ex_mtag ex_array RangeMatch_Exclusive) by (right; vm_compute; discriminate).
+  split; [exact H1|]. split; [exact P|]. split; [vm_compute; reflexivity|].
+  apply (mtag_exact_partial_c ex_mtag ex_array RangeMatch_Exclusive 1 [4; 0] [2; 2] H1 P (H2 1 ltac:(cbn; tauto))).
+  vm_compute. reflexivity.
+Qed.
